@@ -44,7 +44,12 @@ def run(tier, seed, replay):
     # after the imports of the generated file itself: the stub must not keep any of them
     for nm, svc in [("bytes", {"constructor": "bytes.NewBufferString", "arguments": ["x"]}), ("bufio", {"value": "\"bufio\".ErrTooLong"}),
                     ("archive", {"constructor": "NewA", "arguments": ["!value \"archive/tar\".TypeReg"]}), ("errors", {"constructor": "errors.New", "arguments": ["x"]}),
-                    ("strings", {"constructor": "strings.NewReader", "arguments": ["x"]}), ("unicode", {"value": "\"unicode/utf8\".RuneError"})]:
+                    ("strings", {"constructor": "strings.NewReader", "arguments": ["x"]}), ("unicode", {"value": "\"unicode/utf8\".RuneError"}),
+                    # packages of the helper library the generated code itself imports, named by the user where only the normal output prints them
+                    ("helpers-grouperror", {"constructor": "NewA", "arguments": ["!value \"github.com/gontainer/gontainer-helpers/v3/grouperror\".Join"]}),
+                    ("helpers-caller", {"value": "\"github.com/gontainer/gontainer-helpers/v3/caller\".Call"}),
+                    ("helpers-container", {"constructor": "\"github.com/gontainer/gontainer-helpers/v3/container\".New"}),
+                    ("helpers-copier", {"constructor": "NewA", "arguments": ["!value \"github.com/gontainer/gontainer-helpers/v3/copier\".Copy"]})]:
         for extra in ({}, {"g": {"value": "Value", "getter": "GetG", "type": "T"}}):
             cfg = {"services": dict({"s": svc}, **extra)}
             sp = common.mk_spec(0, [cfg])
